@@ -42,7 +42,7 @@ def cases(tier, seed):
 
 def targets(tier):
     k = 1 if tier == "quick" else 10
-    t = {"twin_steps_compared": 20000 * k}
+    t = {"twin_steps_compared": 20000 * k, "cusum_epochs_with_carried_target_exactly_zero": 10 * k}
     for name in DETS:
         t["twin_epochs:" + name] = 25 * k
     for name in ("KdqTreeBatch", "HDDDM", "CDBD", "NNDVI"):
@@ -84,6 +84,23 @@ def run_case(case, ctx):
     rng = gen.rng_for(case["seed"], name)
     params = zoo.draw_params(name, rng)
     items = zoo.workload(name, rng, params)
+    if name in ("CUSUM", "PageHinkley") and rng.random() < (0.5 if name == "CUSUM" else 0.3):
+        # whole-number signals (counts, signed differences): carried-over statistics take exact values such as 0
+        out_, lvl = [], 0
+        while len(out_) < len(items):
+            lvl = int(np.clip(lvl + int(rng.integers(-3, 4)), -4, 4))
+            out_ += [float(round(v)) for v in rng.normal(lvl, float(rng.choice([0.6, 1.0, 2.0])), size=int(rng.integers(3, 60)))]
+        if rng.random() < 0.5:
+            # oscillating signed differences: windows that sum to exactly 0 are common
+            amp = [int(a) for a in rng.integers(1, 4, size=len(items))]
+            out_ = [float(a if (i_ // int(1 + (i_ // 40) % 2)) % 2 else -a) for i_, a in enumerate(amp)]
+        items = out_[: len(items)] if name == "CUSUM" else [v + 6.0 for v in out_[: len(items)]]
+        if name == "CUSUM":
+            # short warm-up and a low threshold: many epochs, each starting from a carried-over window of a few whole numbers
+            params.update(burn_in=int(rng.choice([2, 3, 4, 5, 10])), threshold=float(rng.choice([0.5, 1.0, 2.0, 4.0])))
+            if rng.random() < 0.7:
+                params.update(target=None, sd_hat=None)
+        ctx.count("whole_number_streams")
     k = zoo.kind(name)
     key = case.get("seed_key", case["id"])
     det = zoo.make(name, params)
@@ -140,6 +157,8 @@ def run_case(case, ctx):
         if prev_state == "drift":
             # this update is the first of a new epoch: build the twin with the documented carry-over
             twin = build_twin(name, params, hist, last_batch, key, i)
+            if name == "CUSUM" and twin.target == 0:
+                ctx.count("cusum_epochs_with_carried_target_exactly_zero")
             offset = zoo.counters(det)[0] - 1 - (1 if (name in ("HDDDM", "CDBD") and params["detect_batch"] == 1) else 0)
             epochs_compared += 1
             ctx.count("twin_epochs:" + name)
